@@ -163,6 +163,11 @@ type obResult struct {
 	index   int
 }
 
+// splitFirst: obligations known to need the case split (read from
+// /verif/solver_hints.json; a performance hint only: the same stages run
+// in a different order)
+var splitFirst = map[string]bool{}
+
 func solveAll(dir string, vcs []*VC, timeoutS int, all bool, workers int) []*obResult {
 	var jobs []job
 	for _, vc := range vcs {
@@ -187,14 +192,25 @@ func solveAll(dir string, vcs []*VC, timeoutS int, all bool, workers int) []*obR
 			if it.Class == "canary" {
 				to, al = 3, false
 			}
-			r := solve(dir, fmt.Sprintf("q%04d", k), q, to, al)
+			var r solveResult
+			if splitFirst[it.Name] && len(j.vc.splitVars) > 0 {
+				// known to need the case split (performance hint file): try it first
+				r = solveResult{Status: "unknown"}
+			} else {
+				r = solve(dir, fmt.Sprintf("q%04d", k), q, to, al)
+			}
 			if r.Status != "unsat" && r.Status != "sat" && it.Class != "canary" {
 				// second stage: other solver configurations
 				to2 := to
-				if to2 < 20 {
-					to2 = 20
+				if to2 < 30 {
+					to2 = 30
 				}
-				if r2 := solveWith(solvers2, dir, fmt.Sprintf("q%04d.s2", k), q, to2, false); r2.Status == "unsat" {
+				if r2 := func() solveResult {
+					if splitFirst[it.Name] && len(j.vc.splitVars) > 0 {
+						return solveResult{Status: "unknown"}
+					}
+					return solveWith(solvers2, dir, fmt.Sprintf("q%04d.s2", k), q, to2, false)
+				}(); r2.Status == "unsat" {
 					r2.Time += r.Time
 					r = r2
 				} else if sv := j.vc.splitVars; len(sv) > 0 {
@@ -250,6 +266,8 @@ func solveAll(dir string, vcs []*VC, timeoutS int, all bool, workers int) []*obR
 					}
 					if allUnsat {
 						r = solveResult{Status: "unsat", Solver: fmt.Sprintf("case-split(%d cubes over call bindings)/%s", n, who), Time: r.Time + tmax}
+					} else if splitFirst[it.Name] {
+						r = solve(dir, fmt.Sprintf("q%04d", k), q, to2, al)
 					}
 				}
 			}
